@@ -35,6 +35,12 @@ e!(Q_JOIN_RESPONSES, q_join_responses, x_q_join_responses, &[Shape::KvUniqKey, S
 pub const ENTRIES: &[Entry] =
     &[Q_COLLECT_11, Q_COLLECT_22, Q_COLLECT_23, Q_COLLECT_33, Q_COLLECT_13, Q_RESP_22, Q_RESP_23, Q_RESP_13, Q_UNORD_23, Q_JOIN_RESPONSES];
 
+thread_local! {
+    /// set by the `C39o` scenario group (candidate-finding probe, see FINDINGS.md): also compare
+    /// the output *sequence* of collect_quorum_with_response across batchings
+    pub static STRICT_ORDER: std::cell::Cell<bool> = const { std::cell::Cell::new(false) };
+}
+
 fn min_max(name: &str) -> (usize, usize) {
     let d: Vec<usize> = name.chars().rev().take(2).map(|c| c.to_digit(10).unwrap_or(0) as usize).collect();
     (d[1], d[0])
@@ -122,6 +128,10 @@ pub fn run(entry: &Entry, sim: &mut Sim) -> Outcome {
         if !same {
             v = Some(("batching_dependent", format!("all-at-once reports {:?}, releases {:?} report {:?}", oa[0], plan_b.rel, ob[0])));
         }
+    }
+    if v.is_none() && STRICT_ORDER.with(|c| c.get()) && oa[0] != ob[0] {
+        // not part of C39: the output of collect_quorum_with_response is *typed* TotalOrder
+        v = Some(("total_order_output_depends_on_batching", format!("all-at-once emits {:?}, releases {:?} emit {:?}", oa[0], plan_b.rel, ob[0])));
     }
     if ob[0].len() >= 1 && plan_b.rel[0].iter().filter(|b| !b.is_empty()).count() >= 2 {
         sim.probe("quorum_reached_across_batches");
